@@ -34,6 +34,7 @@ type frame struct {
 	rets   []retSite
 	npanic map[string]int
 	clos   map[ssa.Value]*ssa.MakeClosure
+	passed  []string // run-time checks the current instruction has passed (strengthen the path condition)
 	closOrd map[ssa.Value]int
 	closChecked map[ssa.Value]bool
 }
@@ -84,6 +85,8 @@ func (f *frame) panicOb(kind string, pc, goal string, pos token.Pos, what string
 	n := f.npanic[kind]
 	f.npanic[kind] = n + 1
 	f.oblig("panic."+kind, fmt.Sprintf("%s#panic.%s.%d", funcKey(f.fn), kind, n), pc, goal, what, pos, nil)
+	// execution continues past this point only if the check succeeded
+	f.passed = append(f.passed, goal)
 }
 
 func (f *frame) val(v ssa.Value) T {
@@ -495,9 +498,12 @@ func (f *frame) block(b *ssa.BasicBlock, pc string, st *State, addEdge func(from
 			return
 		default:
 			pc = f.instr(ins, pc, st)
+			if len(f.passed) > 0 {
+				pc = g.s.def("pc", T{and(append([]string{pc}, f.passed...)...), "Bool"}).S
+				f.passed = f.passed[:0]
+			}
 		}
 	}
-	_ = g
 }
 
 // instr executes one non-control instruction; it may strengthen the path condition.
@@ -799,6 +805,7 @@ func (f *frame) doFieldAddr(i *ssa.FieldAddr, st *State, pc string) {
 		return
 	}
 	ref := f.val(i.X)
+	g.addInstTerm("Ref", ref.S)
 	f.panicOb("nil", pc, not(eq(ref.S, "0")), i.Pos(), "nil pointer dereference (."+stt.Field(i.Field).Name()+")")
 	h, ft := g.fieldHeapOf(pt.Elem(), i.Field)
 	f.addrs[i] = addr{kind: "field", heap: h, ref: ref.S, ty: ft, bty: ft}
